@@ -2,6 +2,7 @@ package desync
 
 import (
 	"errors"
+	"sync"
 )
 
 // Chunk holds chunk data plain, storage format, or both. If a chunk is created
@@ -10,6 +11,7 @@ import (
 // the given storage converters in reverse order. The converters can only be used
 // to read the plain data, not to convert back to storage format.
 type Chunk struct {
+	mu           sync.Mutex // Chunks from a de-duplicating store are shared by concurrent callers
 	data         []byte     // Plain data if available
 	storage      []byte     // Storage format (compressed, encrypted, etc)
 	converters   Converters // Modifiers to convert from storage format to plain
@@ -60,6 +62,12 @@ func NewChunkFromStorage(id ChunkID, b []byte, modifiers Converters, skipVerify 
 // with compressed data only, it'll be decompressed, stored and returned. The
 // caller must not modify the data in the returned slice.
 func (c *Chunk) Data() ([]byte, error) {
+	c.mu.Lock()
+	defer c.mu.Unlock()
+	return c.plain()
+}
+
+func (c *Chunk) plain() ([]byte, error) {
 	if len(c.data) > 0 {
 		return c.data, nil
 	}
@@ -75,10 +83,12 @@ func (c *Chunk) Data() ([]byte, error) {
 // after the first call and doesn't need to be re-calculated. Note that calculating
 // the ID may mean decompressing the data first.
 func (c *Chunk) ID() ChunkID {
+	c.mu.Lock()
+	defer c.mu.Unlock()
 	if c.idCalculated {
 		return c.id
 	}
-	b, err := c.Data()
+	b, err := c.plain()
 	if err != nil {
 		return ChunkID{}
 	}
